@@ -16,6 +16,7 @@ def run(S):
     check_truth_table(S)
     dust_exposure_limit(S, D, 1 if S.tier == 'quick' else 2, 'C02.d')
     forward_admission_manager(S, D, 'C02.e')
+    policy_window(S, D)
     E = S.engine()
     f = S.fn('internal_htlc_satisfies_config')
     mem = {}
@@ -164,3 +165,83 @@ def forward_admission_manager(S, D, prefix='C02.e'):
             z3.If(found, z3.And(z3.Or(fee_ok(cfg), z3.And(p_some, fee_ok(pcfg))), out_amt >= cmin.t), False))),
             'replayable form (live announced channel, policies set through update_channel_config): admitted => CLTV rules at the next block height and the current or previous policy is paid; unknown SCIDs are refused',
             [b], bounds='as above, environment fixed to what the native two-node probe builds')
+
+
+EXPIRE_PREV_CONFIG_TICKS = 5
+
+
+def prev_config_binding(claim):
+    """replay (oracle_tu prev_config_battery): a live forwarding node changes a channel's relay policy twice (base fee
+    1000 -> 2000 -> 3000 msat) with k1 / k2 timer ticks after the changes, nine (k1, k2); the real ChannelManager is then
+    asked whether it would forward for each of the three fees: the current one always, the one replaced last only within 5
+    ticks of its replacement, the oldest never. Output = number of bad scenarios."""
+    c = claim if z3.is_expr(claim) else X.zbool(claim)
+    return Binding('prev_config_battery', [z3.IntVal(0)], [z3.If(c, 0, 1)], parse=lambda t: [0 if t[0] == '0' else 1], line_fn=lambda v: '0',
+                   which='oracle_tu', via_solver=True, domain=[(0, 0)], panic=False)
+
+
+def policy_window(S, D):
+    """C02.f: which relay policies a channel honours. C02.a-e decide that a forward pays the fee of the current policy or of
+    `prev_config`; this is what `prev_config` can be. `ChannelContext::update_config`: after a change of fee / CLTV delta the
+    policy honoured besides the new one is exactly the one in force just before the call, with a fresh tick count - never an
+    older one kept alive. `maybe_expire_prev_config` (one timer tick, inductive step on the invariant ticks < 5): the count
+    grows by one and the old policy is dropped when it reaches EXPIRE_PREV_CONFIG_TICKS. Together: a replaced policy is
+    honoured for fewer than 5 ticks after its replacement, whatever further updates follow."""
+    ids = ['C02.f.previous_is_the_one_just_replaced', 'C02.f.tick', 'C02.f.nopanic', 'C02.f.witness']
+    if all(S._skip(o) for o in ids):
+        return
+    CC = D.struct_fields('ChannelContext')
+    CFG = D.struct_fields('ChannelConfig')
+    LC = D.struct_fields('LegacyChannelConfig')
+    POL = ('forwarding_fee_proportional_millionths', 'forwarding_fee_base_msat', 'cltv_expiry_delta')
+    PTY = {'forwarding_fee_proportional_millionths': 'u32', 'forwarding_fee_base_msat': 'u32', 'cltv_expiry_delta': 'u16'}
+
+    def setup():
+        E = S.engine(unwind=2)
+        mem = {}
+        ctx = E.sym('ctx', '&mut ln::channel::ChannelContext<SP>', mem)
+        rd = lambda v, fields, nm, ty: E.read_path(v, (('f', fields.index(nm), ty),), mem, True, 'spec')
+        pol = lambda cfgv: [rd(cfgv, CFG, k, PTY[k]).t for k in POL]
+
+        def state():
+            c = mem[ctx.cell]
+            opts = rd(rd(c, CC, 'config', 'util::config::LegacyChannelConfig'), LC, 'options', 'util::config::ChannelConfig')
+            prev = rd(c, CC, 'prev_config', 'Option<(util::config::ChannelConfig, usize)>')
+            pt = E.en_payload(prev, 'Some', 1, 0, '(util::config::ChannelConfig, usize)', mem, 'spec')
+            return pol(opts), X.zint(prev.d) == 1, pol(pt.fs[0]), X.zint(pt.fs[1].t), X.zint(rd(c, CC, 'update_time_counter', 'u32').t)
+        return E, mem, ctx, state, pol
+    # --- update_config
+    E, mem, ctx, state, pol = setup()
+    new = E.sym('new', '&util::config::ChannelConfig', mem)
+    cur0, had0, prev0, ticks0, cnt0 = state()
+    f = S.fn('update_config', first_param='ChannelContext')
+    rv = S.call(E, f, [ctx, new], mem)
+    ret = S.ret_guard
+    cur1, had1, prev1, ticks1, cnt1 = state()
+    newp = pol(mem[new.cell])
+    eq = lambda a, b: z3.And(*[x == y for x, y in zip(a, b)])
+    changed = z3.Not(eq(cur0, newp))
+    pre = [cnt0 < (1 << 32) - 1, z3.Implies(had0, z3.And(ticks0 >= 0, ticks0 < EXPIRE_PREV_CONFIG_TICKS))]
+    claim_u = z3.And(ret, eq(cur1, newp), X.zbool(rv.t) == changed,
+                     z3.Implies(changed, z3.And(had1, eq(prev1, cur0), ticks1 == 0, cnt1 == cnt0 + 1)),
+                     z3.Implies(z3.Not(changed), z3.And(had1 == had0, z3.Implies(had0, z3.And(eq(prev1, prev0), ticks1 == ticks0)), cnt1 == cnt0)))
+    b = prev_config_binding(claim_u)
+    S.prove(ids[0], E, pre, claim_u,
+            'update_config: the new policy is in force; if fee or CLTV delta changed, the policy honoured besides it is exactly the one in force just before the call (not an older one still being honoured), with tick count 0, and a channel_update is due; an unchanged policy leaves the window alone',
+            [b], bounds='whole function, all u32 / u16 policy values, any earlier window')
+    S.no_panic(ids[2], E, pre, 'no overflow of the update counter below u32::MAX', [])
+    S.witness(ids[3], E, pre + [had0, changed, z3.Not(eq(prev0, cur0))], ret)
+    # --- one timer tick
+    E2, mem2, ctx2, state2, _ = setup()
+    cur0, had0, prev0, ticks0, cnt0 = state2()
+    f2 = S.fn('maybe_expire_prev_config', first_param='ChannelContext')
+    S.call(E2, f2, [ctx2], mem2)
+    ret2 = S.ret_guard
+    cur1, had1, prev1, ticks1, cnt1 = state2()
+    pre2 = [z3.Implies(had0, z3.And(ticks0 >= 0, ticks0 < EXPIRE_PREV_CONFIG_TICKS))]
+    claim_t = z3.And(ret2, eq(cur1, cur0), z3.Implies(z3.Not(had0), z3.Not(had1)),
+                     z3.Implies(had0, z3.And(had1 == (ticks0 + 1 < EXPIRE_PREV_CONFIG_TICKS),
+                                             z3.Implies(had1, z3.And(eq(prev1, prev0), ticks1 == ticks0 + 1, ticks1 < EXPIRE_PREV_CONFIG_TICKS)))))
+    S.prove(ids[1], E2, pre2, claim_t,
+            'one timer tick: the tick count of a replaced policy grows by one and the policy is dropped when the count reaches EXPIRE_PREV_CONFIG_TICKS = 5 (invariant count < 5 preserved: an inductive step over any number of ticks); the current policy is untouched',
+            [prev_config_binding(claim_t)], bounds='whole function from an arbitrary state satisfying the invariant')
